@@ -670,6 +670,12 @@ def witness_scripts(prop, desc_len):
         out.append(("C08c-foreign-ack-after-lost-status-ack",
                     on + [tok("SETUP", 0, 0), dat("DATA0", S(2, 1, 0, 0x02, 0)), tok("IN", 0, 0), tok("IN", 0, 1), ACK,
                           tok("IN", 0, 0), ACK]))
+        far = [tok("IN", 9, 1), dict(FACK)]
+        for v, ln in ((0x100, 18), (0x302, 2)):
+            # FA: the host's ACK of ANOTHER ADDRESS's data while our descriptor packet is unacknowledged
+            out.append(("FA-foreign-address-ack-before-retransmission",
+                        [tok("SETUP", 0, 0), dat("DATA0", S(0x80, 6, v, 0, ln)), tok("IN", 0, 0)] + far
+                        + [tok("IN", 0, 0), ACK, tok("OUT", 0, 0), dat("DATA1", [])] + sanity(0)))
         out.append(("C07-reset-midway", [tok("SETUP", 0, 0), dat("DATA0", GD), {"a": "reset"}] + full_in(0, GC)))
     if prop == "C10":
         on = [{"a": "src", "en": 1}]
@@ -693,6 +699,12 @@ def witness_scripts(prop, desc_len):
             out.append(("C08-foreign-ack-after-lost-status-ack@d=%d" % d,
                         on + spaced([tok("SETUP", 0, 0), dat("DATA0", SC), tok("IN", 0, 0), tok("IN", 0, 1), dict(ACK)], d)
                         + [tok("IN", 0, 0), ACK] + sanity(0)))
+        far = [tok("IN", 9, 1), dict(FACK)]
+        for s8, a_new in ((SA, 5), (SC, 0), (S(2, 1, 0, 0x81, 0), 0)):
+            # FA: status ZLP sent, its ACK lost, then the host ACKs ANOTHER ADDRESS's data: nothing may be committed
+            out.append(("FA-foreign-address-ack-after-lost-status-ack",
+                        on + [tok("IN", 0, 1), ACK, tok("SETUP", 0, 0), dat("DATA0", s8), tok("IN", 0, 0)] + far
+                        + [tok("IN", 0, 3), tok("IN", 0, 1), ACK, tok("IN", 0, 0), ACK] + sanity(a_new)))
         out.append(("C08-foreign-ack-before-status", on + [tok("SETUP", 0, 0), dat("DATA0", SA), tok("IN", 0, 1), ACK,
                                                            tok("IN", 0, 0), ACK, tok("IN", 5, 3), tok("IN", 0, 3)]))
         out.append(("C08-foreign-ack-before-status-cfg", on + [tok("SETUP", 0, 0), dat("DATA0", SC), tok("IN", 0, 1), ACK,
